@@ -14,7 +14,7 @@ Request:  run <flag 0|1> <path absent|file|dir|lfile|ldir|dangling|loop> <excs> 
                  l<len> t<len> b0 b1 (object whose __bool__ is False / True)
            form: 0 function, 1 instance method, 2/3 classmethod via class/instance,
                  4/5 staticmethod via class/instance
-         | nt 0|1 B LATE | hnt k 0|1 B LATE
+         | nt 0|1 B LATE | hnt k 0|1 B LATE | ec B (with ctxt: B, the same object again) | sw B (try/except-pass)
          acc  = `-` or k,k,…      rais = `-` or k>k',…
 Reply (blank separated):
   out=ok|R:<who> tb=<tags> cause=-|N|<who> log=-|<who>/<tags>;… path=… ctx=<reraise>:<type>:<value>:<tags>
@@ -117,6 +117,12 @@ def parseBody : Nat → List String → Option (Body × List String)
       let (body, r) ← parseBody fuel r
       let (late, r) ← parseBody fuel r
       pure (.handleNestThen k b body late, r)
+    | "ec" :: r => do
+      let (body, r) ← parseBody fuel r
+      pure (.enterCur body, r)
+    | "sw" :: r => do
+      let (body, r) ← parseBody fuel r
+      pure (.swallow body, r)
     | "rwc" :: x :: r =>
       if x = "N" then some (.rwc none, r)
       else if x = "none" then some (.rwc (some none), r)
